@@ -163,3 +163,41 @@ SPECS["C18"] = dict(targets=["Properties/C18.vo"], judge_targets=["Check/ChkC18.
                          "Live-socket parts are skipped (and recorded) when the sandbox has no netlink. non-trivial = non-empty payload / buffer of at least a header; distinct by case term",
                     assumptions=["the kernel stamps its own datagrams with port 0 and user-space ones with the sender's port (runtime fact, observed on live sockets)",
                                  "atomic.AddUint32 is an atomic step"])
+
+
+def explore_rule(mode):
+    def f(spec, res, a):
+        n = {"build": 700, "total": 900, "flags": 1500}[mode] if a.tier == "quick" else {"build": 15000, "total": 20000, "flags": 40000}[mode]
+        return V.standard_explore(spec, res, a, [("h_rule", ["-mode", mode, "-seed", str(res.seed), "-n", str(n)])])
+    return f
+
+
+RULE_RULE = ("structured auditctl-style rules generated from one splitmix64 state per case: list in {exit,task,user,exclude} x action, 0..5 (sometimes 60..67) filters over every field class "
+             "(numeric with decimal/hex/octal/binary/underscore/negative spellings and boundary values, uid/gid incl. unset and negative, exit codes by number and errno name, msgtype by name and number, strings, arch, perm, filetype, -C comparisons), "
+             "all 8 operators, syscalls by number 0..2047 (and beyond) and by name on the arch in force, 'all', 0..3 keys, file watches on a scratch file / directory / missing path; one sixth deliberately inadmissible. "
+             "Each line goes through flags.Parse and rule.Build; accepted rules go on through ToCommandLine -> Parse -> Build -> ToCommandLine. non-trivial = accepted with at least one filter; distinct by case term")
+
+
+def rule_spec(pid, judge, mode, case_type, rule_text):
+    return dict(targets=["Properties/%s.vo" % pid], judge_targets=["Check/ChkRule.vo"],
+                imports="Require Import Bytes RuleEncode ChkRule.\nLocal Open Scope string_scope.", case_type=case_type, judge=judge, shard=40, explore=explore_rule(mode),
+                rule=rule_text,
+                assumptions=["os.Stat, runtime.GOARCH and the user database are oracles: the generator uses a scratch file/directory, numeric ids and the sandbox architecture",
+                             "text spellings of numeric values are produced by the generator from the number (the generator is the oracle for text -> value)"])
+
+
+SPECS["C06"] = rule_spec("C06", "judge_c06", "build", "bcase", RULE_RULE)
+SPECS["C07"] = rule_spec("C07", "judge_c07", "build", "bcase", RULE_RULE)
+SPECS["C13"] = rule_spec("C13", "judge_c13", "total", "tcase",
+    "wire data: valid rules with one 32-bit header word replaced by {0,1,63,64,65,2^31-1,2^31,2^32-1,len,len+-1} (half of them at the count/buflen/first value and field words), truncations, two words at once, random buffers around 1040 bytes; "
+    "Rule values with 0..200 filters, syscall strings 2047/2048/2079/2080/2^31/2^32-1/-1/overflowing, odd list/action/key/path strings; arbitrary lines spliced from flag fragments and quote characters. "
+    "A recovered panic or an allocation above 64 MiB in one call is a violation. non-trivial = the call returned (ok or error); distinct by case term")
+
+SPECS["C14"] = dict(targets=["Properties/C14.vo"], judge_targets=["Check/ChkFlags.vo"],
+                    imports="Require Import Bytes Flags ChkFlags.\nLocal Open Scope string_scope.", case_type="fcase", judge="judge_c14", shard=100, explore=explore_rule("flags"),
+                    rule="lines rendered from item lists (flag + value in the forms -x v, -x=v, --x v, --x=v; -D; stray words; the -- terminator) for syscall-shaped, watch-shaped, delete and arbitrary flag mixes, "
+                         "with values containing blanks, tabs, newlines, '=' signs, operator characters, leading junk, empty strings, repeated single-valued flags, -a/-A present 0/1/2 times, shuffled order; "
+                         "each line is kept only if shellquote.Split gives back exactly the tokens. The returned rule.Rule (type, list, action, every filter's kind/lhs/comparator/rhs, syscalls, path, permissions, keys) is compared. "
+                         "non-trivial = the line was accepted; distinct by case term",
+                    assumptions=["shellquote.Split is outside the model (checked per case to return the generated tokens)",
+                                 "regexp (RE2) is modelled by hand-written scanners for the two patterns; their source text is pinned through Gen/RegexPins.v"])
